@@ -1,7 +1,160 @@
-/- C04 line-protocol driver (core-only). Stub until the property's model lands. -/
+/- C04 line-protocol driver (core-only). -/
+import BV.C04.Model
 namespace BV.C04.Driver
+open BV.C04
+
+abbrev A := SetAlg
+
+structure PBlk where
+  id : Nat
+  parent : Nat
+  blk : Blk
+
+def parseSpends (s : String) : Option (List Nat) :=
+  if s == "-" then some [] else (s.splitOn ".").mapM (·.toNat?)
+
+def parseBlk (t : String) : Option PBlk :=
+  match t.splitOn ":" with
+  | [i, p, sp] => do
+    let i ← i.toNat?; let p ← p.toNat?; let sp ← parseSpends sp
+    pure ⟨i, p, ⟨i, sp, false⟩⟩
+  | [i, p, sp, "x"] => do
+    let i ← i.toNat?; let p ← p.toNat?; let sp ← parseSpends sp
+    pure ⟨i, p, ⟨i, sp, true⟩⟩
+  | _ => none
+
+/-- id ↦ chain, genesis = 0 ↦ []. -/
+abbrev Table := List (Nat × Chain)
+
+def buildTable : List PBlk → Table → Option Table
+  | [], t => some t
+  | b :: rest, t =>
+    if b.id == 0 || b.id > 4000 || (t.lookup b.id).isSome || b.blk.spends.length ≥ 8 then none
+    else match t.lookup b.parent with
+      | none => none
+      | some pc => buildTable rest (t ++ [(b.id, b.blk :: pc)])
+
+def parseBlocks (s : String) : Option Table :=
+  if s == "-" then some [(0, [])]
+  else do
+    let bs ← (s.splitOn ",").mapM parseBlk
+    buildTable bs [(0, [])]
+
+def parseOp (t : Table) (s : String) : Option Op :=
+  if s == "f" then some .flushReq
+  else if s == "i" then some .flushIfNeeded
+  else if s.startsWith "d" then do
+    let id ← (s.drop 1).toString.toNat?
+    if id == 0 then none else
+    match t.lookup id with
+    | some (b :: p) => some (.deliver b p)
+    | _ => none
+  else none
+
+def parseOps (t : Table) (s : String) : Option (List Op) :=
+  if s == "-" then some [] else (s.splitOn ",").mapM (parseOp t)
+
+def cid : Chain → Nat
+  | [] => 0
+  | b :: _ => b.id
+
+def joinOr (xs : List String) : String := if xs.isEmpty then "-" else ".".intercalate xs
+
+def sortNat (xs : List Nat) : List Nat := xs.foldl (fun acc x => ins x acc) []
+
+def natsStr (xs : List Nat) : String := joinOr (xs.map toString)
+
+def statusNum (c : Chain) (s : Status) : Nat :=
+  if c == [] then 3 else
+  17 + (if s.valid then 2 else 0) + (if s.failed then 4 else 0) + (if s.invAnc then 8 else 0)
+
+def rowsStr (r : Rows) : String :=
+  let ids := sortNat (r.map (fun e => cid e.1))
+  joinOr (ids.map (fun i =>
+    match r.find? (fun e => cid e.1 == i) with
+    | some e => s!"{i}/{statusNum e.1 e.2}"
+    | none => "?"))
+
+def persStr (img : Image A) : String :=
+  let marker := match img.marker with | none => "-" | some m => toString (cid m)
+  let hidx := if img.created then natsStr ((suffixes img.best).reverse.map cid) else "-"
+  s!"best={cid img.best} marker={marker} rows={rowsStr img.rows} stored={natsStr (sortNat (img.stored.map cid))} journal={natsStr (sortNat (img.journal.map cid))} hidx={hidx} nutxo={img.utxo.length}"
+
+def resStr : Option Res → String
+  | none => "ok"
+  | some .okMain => "ok10"
+  | some .okSide => "ok00"
+  | some .orphan => "ok01"
+  | some .dup => "rej"
+  | some .rej => "rej"
+
+/-- per op: result, log length before/after, tip before/after. -/
+structure OpRec where
+  res : Option Res
+  s : Nat
+  e : Nat
+  old : Chain
+  new : Chain
+  acked : Option Chain
+
+def runRec (cfg : Cfg) : List Op → Node A → List OpRec → Node A × List OpRec
+  | [], nd, acc => (nd, acc.reverse)
+  | o :: rest, nd, acc =>
+    let (nd', r) := step cfg nd o
+    let ack := match o, r with
+      | .deliver b p, some .okMain => some (b :: p)
+      | .deliver b p, some .okSide => some (b :: p)
+      | _, _ => none
+    runRec cfg rest nd' (⟨r, nd.log.length, nd'.log.length, nd.tip, nd'.tip, ack⟩ :: acc)
+
+def isConnect : Commit A → Bool
+  | .connect _ _ => true
+  | _ => false
+
+/-- 1-based index of the last connect commit among log positions (s, e]. -/
+def lastConnect (log : List (Commit A)) (s e : Nat) : Nat :=
+  ((List.range (e - s)).foldl (fun acc i => if (log.drop (s + i)).head?.any isConnect then s + i + 1 else acc) 0)
+
+def windowStr (log : List (Commit A)) (recs : List OpRec) (k : Nat) : String :=
+  match recs.find? (fun r => r.old != r.new && r.s + 2 ≤ k && k < lastConnect log r.s r.e) with
+  | some r => s!"{cid r.old}:{cid r.new}"
+  | none => "-"
+
+def corruptStr : Corrupt → String
+  | _ => "err"
+
+def handleImg (cfg : Cfg) (t : Table) (ops : List Op) (k : Nat) : String :=
+  match recover cfg (Image.empty A) with
+  | .error _ => "new:err"
+  | .ok nd0 =>
+    let (fin, recs) := runRec cfg ops nd0 []
+    let n := fin.log.length
+    if k > n then s!"n={n} out-of-range" else
+    let img := replay (Image.empty A) (fin.log.take k)
+    let res := ".".intercalate (recs.map (fun r => resStr r.res))
+    let head := s!"n={n} res={res} {persStr img} w={windowStr fin.log recs k}"
+    match recover cfg img with
+    | .error e => s!"{head} r=err:{corruptStr e}"
+    | .ok rn =>
+      let acked := recs.filterMap (fun r => if r.e ≤ k then r.acked else none)
+      let missing := (acked.filter (fun c => c ∉ keys rn.index)).length
+      let chain := natsStr ((suffixes rn.tip).reverse.map cid)
+      let after := runOps cfg rn (ops.filter (fun o => match o with | .deliver _ _ => true | _ => false))
+      let _ := t
+      s!"{head} r=ok,{cid rn.tip},{chain},{natsStr rn.utxo},{missing} fin={cid fin.tip};{cid after.tip};{natsStr after.utxo}"
 
 def handle : List String → String
-  | _ => "unimplemented"
+  | ["img", cache, prune, blocks, ops, k] =>
+    match (if cache == "0" then some true else if cache == "1" then some false else none),
+          parseBlocks blocks, k.toNat? with
+    | some ca, some t, some k =>
+      if k == 0 then "malformed" else
+      if prune != "0" then "unsupported" else
+      match parseOps t ops with
+      | some os => handleImg ⟨ca⟩ t os k
+      | none => "malformed"
+    | _, _, _ => "malformed"
+  | "img" :: _ => "malformed"
+  | _ => "bad-op"
 
 end BV.C04.Driver
